@@ -16,6 +16,7 @@ import (
 	"strconv"
 	"time"
 
+	"github.com/samber/lo"
 	"github.com/synnaxlabs/cesium/internal/channel"
 	"github.com/synnaxlabs/x/config"
 	"github.com/synnaxlabs/x/errors"
@@ -238,6 +239,29 @@ func (db *DB) DeleteTimeRange(
 			continue
 		}
 		return channel.NewNotFoundError(ch)
+	}
+
+	// Refuse before touching anything when an index channel of the request still indexes
+	// data of a channel that is not part of the request: a refused request must not have
+	// deleted its data channels already.
+	for _, ch := range indexChannels {
+		idxDB := db.mu.dbs.unary[ch]
+		for otherDBKey, otherDB := range db.mu.dbs.unary {
+			if otherDBKey == ch || otherDB.Channel().Index != ch ||
+				lo.Contains(dataChannels, otherDBKey) {
+				continue
+			}
+			hasOverlap, err := otherDB.HasDataFor(ctx, tr)
+			if err != nil || hasOverlap {
+				return errors.Newf(
+					"cannot delete index channel %v "+
+						"with channel %v depending on it on the time range %s",
+					idxDB.Channel(),
+					otherDB.Channel(),
+					tr,
+				)
+			}
+		}
 	}
 
 	for _, ch := range dataChannels {
